@@ -325,3 +325,78 @@ theorem dqRe_match (W : CSet) {Q NQ BS ANY q bs} (h : StrOK Q NQ BS ANY q bs) (h
   simp [Pos.fin]
 
 end MindsVerif.Re
+
+namespace MindsVerif.Re
+
+/-! ### the single-quoted literal inside a text: the closing quote is followed by something that is not a quote -/
+
+def ttR (q bs : Nat) (rest : List Nat) : List (List Nat) → List Nat
+  | [] => rest
+  | u :: cs => q :: (encB bs u ++ q :: ttR q bs rest cs)
+
+theorem strG_star_rest (W : CSet) {Q NQ BS ANY q bs} (h : StrOK Q NQ BS ANY q bs) (hle : bs ≤ 1114111)
+    (rest : List Nat) (hrest : ∀ c t, rest = c :: t → Q.mem c = false)
+    {step : Pos → (Pos → Option Pos) → Option Pos} {kq : Pos → Option Pos}
+    (hstep : ∀ p k, step p k = m W (strG Q NQ BS ANY) p k) (hk : ∀ p, kq p = m W (.set Q) p some) :
+    ∀ (cs : List (List Nat)) (pre : List Nat) (n : Nat), (∀ u ∈ cs, ChunkOK q u) → (ttR q bs rest cs).length + 1 < n →
+    ∃ e, e.suf = rest ∧ (Pos.mk pre (q :: ttR q bs rest cs)).le e ∧
+      starLoop step true n ⟨pre, q :: ttR q bs rest cs⟩ kq = some e := by
+  intro cs
+  induction cs with
+  | nil =>
+    intro pre n _ hn
+    cases n with
+    | zero => omega
+    | succ n =>
+      refine ⟨⟨q :: pre, rest⟩, rfl, Pos.le_of_lt (Pos.lt_step pre q rest), ?_⟩
+      simp only [ttR, starLoop, if_true]
+      rw [hstep, hk]
+      unfold strG
+      rw [m_seq, m_set_cons, if_pos h.qq, m_seq]
+      cases rest with
+      | nil => simp [m, h.qq, Option.orElse]
+      | cons c t =>
+        have := hrest c t rfl
+        simp [m, h.qq, this, Option.orElse]
+  | cons u cs ih =>
+    intro pre n hall hn
+    have hu : ChunkOK q u := hall u List.mem_cons_self
+    have hcs : ∀ v ∈ cs, ChunkOK q v := fun v hv => hall v (List.mem_cons_of_mem _ hv)
+    cases n with
+    | zero => omega
+    | succ n =>
+      have e : ttR q bs rest (u :: cs) = q :: (encB bs u ++ q :: ttR q bs rest cs) := rfl
+      rw [e] at hn ⊢
+      obtain ⟨e1, he1, hle1, hrec⟩ := ih ((encB bs u).reverse ++ q :: q :: pre) n hcs (by simp at hn ⊢; omega)
+      refine ⟨e1, he1, ?_, ?_⟩
+      · refine Pos.le_trans ⟨q :: q :: encB bs u, by simp, by simp⟩ hle1
+      · simp only [starLoop, if_true]
+        rw [hstep]
+        unfold strG
+        rw [m_seq, m_set_cons, if_pos h.qq, m_seq, m_set_cons, if_pos h.qq, m_seq,
+          look_ok W h (q :: q :: pre) (encB bs u) (ttR q bs rest cs) (encB_mem h hle u hu), m_star]
+        rw [strX_star W h hle (ttR q bs rest cs) (step := fun p k' => m W (strX Q NQ BS ANY) p k') (fun _ _ => rfl) u (q :: q :: pre) _ _
+          e1 hu (by simp <;> omega)]
+        · rfl
+        · have hlt : (q :: ttR q bs rest cs).length < (q :: q :: (encB bs u ++ q :: ttR q bs rest cs)).length := by simp <;> omega
+          simp only [hlt, if_true, hrec]
+
+/-- the literal regex on an encoded literal followed by `rest` (not starting with a quote): the match ends exactly in front
+of `rest` -/
+theorem strRe_match_rest (W : CSet) {Q NQ BS ANY q bs} (h : StrOK Q NQ BS ANY q bs) (hle : bs ≤ 1114111)
+    (rest : List Nat) (hrest : ∀ c t, rest = c :: t → Q.mem c = false)
+    (u0 : List Nat) (cs : List (List Nat)) (hu0 : ChunkOK q u0) (hcs : ∀ u ∈ cs, ChunkOK q u) (pre : List Nat) :
+    ∃ e, e.suf = rest ∧ (Pos.mk pre (q :: (encB bs u0 ++ q :: ttR q bs rest cs))).le e ∧
+      matchAt W (strRe Q NQ BS ANY) ⟨pre, q :: (encB bs u0 ++ q :: ttR q bs rest cs)⟩ = some e := by
+  obtain ⟨e, he, hle', hg⟩ := strG_star_rest W h hle rest hrest (step := fun p k' => m W (strG Q NQ BS ANY) p k')
+    (kq := fun p => m W (.set Q) p some) (fun _ _ => rfl) (fun _ => rfl) cs ((encB bs u0).reverse ++ q :: pre)
+    ((q :: ttR q bs rest cs).length + 1) hcs (by simp)
+  refine ⟨e, he, Pos.le_trans ⟨q :: encB bs u0, by simp, by simp⟩ hle', ?_⟩
+  unfold matchAt strRe
+  rw [m_seq, m_set_cons, if_pos h.qq, m_seq, m_star]
+  apply strX_star W h hle (ttR q bs rest cs) (step := fun p k' => m W (strX Q NQ BS ANY) p k') (fun _ _ => rfl) u0 (q :: pre) _ _ _ hu0
+    (by simp <;> omega)
+  rw [m_seq, m_star]
+  exact hg
+
+end MindsVerif.Re
